@@ -108,7 +108,9 @@ struct L1 {
 
 // form: "matrix" (lower triangular range of ranges), "points" (indices + functor looking the matrix up),
 //       "coords" (integer points + L1 functor; needs in.coords)
-inline Cx run_sparse(const Input& in, const Params& pr, const std::string& form) {
+// reuse: the same Sparse_rips_complex object first builds a complex of dimension 1 into a scratch tree (the documented
+// interface allows any number of create_complex calls; the farthest-point order is fixed by the constructor)
+inline Cx run_sparse(const Input& in, const Params& pr, const std::string& form, bool reuse = false) {
   namespace R = Gudhi::rips_complex;
   const FV ninf = -std::numeric_limits<FV>::infinity(), pinf = std::numeric_limits<FV>::infinity();
   const FV mini = pr.mini == 0 ? ninf : static_cast<FV>(pr.mini) * in.scale, maxi = pr.maxi == BIG ? pinf : static_cast<FV>(pr.maxi) * in.scale;
@@ -116,17 +118,17 @@ inline Cx run_sparse(const Input& in, const Params& pr, const std::string& form)
   try {
     if (form == "matrix") {
       auto lower = in.lower();
-      if (pr.defaults()) { R::Sparse_rips_complex<FV> s(lower, pr.eps()); s.create_complex(st, pr.dmax); }
-      else { R::Sparse_rips_complex<FV> s(lower, pr.eps(), mini, maxi); s.create_complex(st, pr.dmax); }
+      if (pr.defaults()) { R::Sparse_rips_complex<FV> s(lower, pr.eps()); if (reuse) { ST scratch; s.create_complex(scratch, 1); } s.create_complex(st, pr.dmax); }
+      else { R::Sparse_rips_complex<FV> s(lower, pr.eps(), mini, maxi); if (reuse) { ST scratch; s.create_complex(scratch, 1); } s.create_complex(st, pr.dmax); }
     } else if (form == "points") {
       std::vector<int> pts(in.n);
       for (int i = 0; i < in.n; ++i) pts[i] = i;
       auto dist = [&](int a, int b) { return in.D[a][b] * in.scale; };
-      if (pr.defaults()) { R::Sparse_rips_complex<FV> s(pts, dist, pr.eps()); s.create_complex(st, pr.dmax); }
-      else { R::Sparse_rips_complex<FV> s(pts, dist, pr.eps(), mini, maxi); s.create_complex(st, pr.dmax); }
+      if (pr.defaults()) { R::Sparse_rips_complex<FV> s(pts, dist, pr.eps()); if (reuse) { ST scratch; s.create_complex(scratch, 1); } s.create_complex(st, pr.dmax); }
+      else { R::Sparse_rips_complex<FV> s(pts, dist, pr.eps(), mini, maxi); if (reuse) { ST scratch; s.create_complex(scratch, 1); } s.create_complex(st, pr.dmax); }
     } else {
-      if (pr.defaults()) { R::Sparse_rips_complex<FV> s(in.scaled(in.coords), L1(), pr.eps()); s.create_complex(st, pr.dmax); }
-      else { R::Sparse_rips_complex<FV> s(in.scaled(in.coords), L1(), pr.eps(), mini, maxi); s.create_complex(st, pr.dmax); }
+      if (pr.defaults()) { R::Sparse_rips_complex<FV> s(in.scaled(in.coords), L1(), pr.eps()); if (reuse) { ST scratch; s.create_complex(scratch, 1); } s.create_complex(st, pr.dmax); }
+      else { R::Sparse_rips_complex<FV> s(in.scaled(in.coords), L1(), pr.eps(), mini, maxi); if (reuse) { ST scratch; s.create_complex(scratch, 1); } s.create_complex(st, pr.dmax); }
     }
   } catch (const std::exception& e) {
     Cx c;
